@@ -366,3 +366,54 @@ def r5(ctx: Ctx) -> None:
     _c07.r1(ctx)
     _c07.r2(ctx)
     _c07.r8(ctx)
+
+
+@rule("C08", "R7.grid-tables", "LOOP-COVER/MIRROR",
+      "definecoords builds the grid from ALL cells of the input: carrier.blocks is every cell index, the coordinate sets take the "
+      "four borders of every cell, xcoords / ycoords are those sets sorted, and next / prev link every pair of consecutive "
+      "coordinates (x and y alike) -- the formula talks about the whole grid, not a window of it", floor=4)
+def r7_grid_tables(ctx: Ctx) -> None:
+    f = ctx.func(RECT, "definecoords")
+    c = canon_function(f, ctx.model)
+    car = ("p", 0)
+    ip = ("a", car, "input_problem")
+    stores = {st[1][2]: st[2] for st in c if st[0] == "set" and len(st) == 3 and st[1][0] == "a" and st[1][1] == car}
+    ctx.site(f.where, "blocks == every index of the input problem")
+    n_ip = ("c", ("g", "len"), (ip,), ())
+    all_idx = [("c", ("g", "list"), (("c", ("g", "range"), (n_ip,), ()),), ()), ("c", ("g", "range"), (n_ip,), ())]
+    if stores.get("blocks") not in all_idx:
+        ctx.report(f.where, "blocks-not-all " + show(stores.get("blocks", ("k", "none")))[:120],
+                   "carrier.blocks is not the list of all cell indices: cells left out of the problem can never be selected, so shapes that use them have no model",
+                   lineno=f.node.lineno)
+    # the two coordinate sets: filled by one loop over all cells with the borders (0, 2) / (1, 3)
+    loops = [st for st in c if st[0] == "for" and st[2] == ip]
+    ctx.site(f.where, "coordinate sets take borders 0/2 (x) and 1/3 (y) of every cell", loops=len(loops))
+    sets_ = {}
+    for lp in loops:
+        for st in lp[3]:
+            if st[0] == "expr" and st[1][0] == "c" and st[1][1][0] == "a" and st[1][1][2] == "add" and len(st[1][2]) == 1 and st[1][2][0][:2] == ("s", lp[1]) \
+                    and st[1][2][0][2][:2] == ("k", "num"):
+                sets_.setdefault(st[1][1][1], set()).add(st[1][2][0][2][2][0])
+            else:
+                sets_.setdefault(("other",), set()).add(0)
+    by_axis = {frozenset(v): k for k, v in sets_.items()}
+    xs, ys = by_axis.get(frozenset({0, 2})), by_axis.get(frozenset({1, 3}))
+    if len(loops) != 1 or xs is None or ys is None or len(sets_) != 2:
+        ctx.report(f.where, "coordinate-sets", "the coordinate sets are not filled with the four borders of every cell of the input problem", lineno=f.node.lineno)
+        return
+    for axis, sv, key in [("x", xs, "xcoords"), ("y", ys, "ycoords")]:
+        srt = ("c", ("g", "sorted"), (sv,), ())
+        ctx.site(f.where, f"{key} == sorted set of {axis} borders; next_{axis} / prev_{axis} link consecutive coordinates")
+        if stores.get(key) != srt:
+            ctx.report(f.where, f"coords-not-sorted-set {key}", f"carrier.{key} is not the sorted set of all {axis} borders", lineno=f.node.lineno)
+            continue
+        nxt, prv = stores.get(f"next_{axis}"), stores.get(f"prev_{axis}")
+        ok = False
+        for lp in c:
+            if lp[0] == "for" and lp[2] == ("c", ("g", "range"), (k_num(1), ("c", ("g", "len"), (srt,), ())), ()):
+                i = lp[1]
+                cur, before = ("s", srt, i), ("s", srt, (to_poly(i) - Poly.const(1)).to_s())
+                if {("set", ("s", nxt, before), cur), ("set", ("s", prv, cur), before)} <= set(lp[3]) and len(lp[3]) == 2:
+                    ok = True
+        if not ok:
+            ctx.report(f.where, f"coordinate-links {axis}", f"next_{axis} / prev_{axis} do not link every pair of consecutive {axis} coordinates", lineno=f.node.lineno)
